@@ -257,7 +257,7 @@ func Decode(b []byte) (*Packet, error) {
 	}
 	p := &Packet{Type: int(b[0] >> 4), Flags: b[0] & 0x0F, Size: len(b), LenLen: used}
 	if !minimal {
-		return p, mal("length-field", "non-minimal remaining length encoding")
+		return p, mal("nonminimal-length", "non-minimal remaining length encoding")
 	}
 	r := &rd{b: b[1+used:]}
 	wantFlags := func(f byte) error {
